@@ -3,41 +3,41 @@ HEAD = '''import harness.C12_res as H
 H.install_cuts(quick={QUICK})
 '''
 
-REQ_PRE = '''    pre: 0 <= c < {CMAX} and 0 <= m < {MMAX} and 0 <= st < {SMAX}
+REQ_PRE = '''    pre: 0 <= ck <= {CKMAX} and 0 <= m < {MMAX} and 0 <= st < {SMAX}
     pre: 0 <= s0 < {SLK} and 0 <= s1 < {SLK} and 0 <= s2 < {SLK}'''
 
 POOL = '''
-def pool_{CLOUD}_{WT}(c: int, m: int, st: int, wc: int, s0: int, s1: int, s2: int) -> bool:
+def pool_{CLOUD}_{WT}(ck: int, m: int, st: int, wc: int, s0: int, s1: int, s2: int) -> bool:
     """
 {REQ_PRE}
     pre: wc in {CORES}
     post: _
     """
-    return H.pool_ok('{CLOUD}', '{WT}', wc, c, m, st, (s0, s1, s2))
+    return H.pool_ok('{CLOUD}', '{WT}', wc, H.share(ck), m, st, (s0, s1, s2))
 
 
-def reach_pool_{CLOUD}_{WT}(c: int, m: int, st: int, wc: int, s0: int, s1: int, s2: int) -> bool:
+def reach_pool_{CLOUD}_{WT}(ck: int, m: int, st: int, wc: int, s0: int, s1: int, s2: int) -> bool:
     """
 {REQ_PRE}
     pre: wc in {CORES}
     post: _
     """
     # reachability twin: must be REFUTED (a request with memory-driven core adjustment is accepted)
-    return not (H.pool_accepts('{CLOUD}', '{WT}', wc, c, m, st, (s0, s1, s2)) and c <= 250 and m > 2**31 and st > 0)
+    return not (H.pool_accepts('{CLOUD}', '{WT}', wc, H.share(ck), m, st, (s0, s1, s2)) and ck == 0 and m > 2**31 and st > 0)
 '''
 
 SELECT = '''
-def {FN}(c: int, m: int, st: int, pre_: bool, label_i: int, s0: int, s1: int, s2: int{PRARGS}) -> bool:
+def {FN}(ck: int, m: int, st: int, pre_: bool, label_i: int, s0: int, s1: int, s2: int{PRARGS}) -> bool:
     """
 {REQ_PRE}
     pre: 0 <= label_i <= 2
     pre: {SHARD}
     post: _
     """
-    return H.select_ok('{CLOUD}', {V}, c, m, st, pre_, label_i, {WTI}, (s0, s1, s2), exclude_known={EXK}, prices={PRICES})
+    return H.select_ok('{CLOUD}', {V}, H.share(ck), m, st, pre_, label_i, {WTI}, (s0, s1, s2), exclude_known={EXK}, prices={PRICES})
 
 
-def reach_{FN}(c: int, m: int, st: int, pre_: bool, label_i: int, s0: int, s1: int, s2: int{PRARGS}) -> bool:
+def reach_{FN}(ck: int, m: int, st: int, pre_: bool, label_i: int, s0: int, s1: int, s2: int{PRARGS}) -> bool:
     """
 {REQ_PRE}
     pre: 0 <= label_i <= 2
@@ -45,7 +45,7 @@ def reach_{FN}(c: int, m: int, st: int, pre_: bool, label_i: int, s0: int, s1: i
     post: _
     """
     # reachability twin (assertion replaced by false): must be REFUTED, i.e. the end of the check is reached
-    H.select_ok('{CLOUD}', {V}, c, m, st, pre_, label_i, {WTI}, (s0, s1, s2), exclude_known={EXK}, prices={PRICES})
+    H.select_ok('{CLOUD}', {V}, H.share(ck), m, st, pre_, label_i, {WTI}, (s0, s1, s2), exclude_known={EXK}, prices={PRICES})
     return {TWIN}
 '''
 
@@ -67,7 +67,7 @@ def reach_private_{CLOUD}(same_cloud: bool, mt_i: int, st: int) -> bool:
     return not (same_cloud and st > 11 * 2**30 and H.private_ok('{CLOUD}', same_cloud, mt_i, st))
 '''
 
-CMAX = 1 << 20          # requested mcpu  (1048 cores; every pool has <= 96)
+CKMAX = 12              # requested mcpu = 250 * 2^ck, the shares the front end accepts (is_valid_cores_mcpu), up to 1024 cores
 MMAX = 1 << 44          # requested memory bytes (16 TiB; the largest worker has < 1 TiB)
 SMAX = 1 << 47          # requested storage bytes (128 TiB; the clouds' limits are 64 / 32 TiB)
 SLK = 1 << 20           # slack of the over-approximating mdiv cut
@@ -84,7 +84,7 @@ def select_shards(wti, quick):
 
 
 def source(quick, variants, H, select0=True):
-    req = REQ_PRE.format(CMAX=CMAX, MMAX=MMAX, SMAX=SMAX, SLK=SLK)
+    req = REQ_PRE.format(CKMAX=CKMAX, MMAX=MMAX, SMAX=SMAX, SLK=SLK)
     out = [HEAD.format(QUICK=quick)]
     names = []
     for cloud in ('gcp', 'azure'):
@@ -99,7 +99,7 @@ def source(quick, variants, H, select0=True):
                     fn = f'select_{cloud}_{v}_{wti}{suffix}'
                     # un-sharded conditions: the twin demands that some request is placed; shards: that the end is reached
                     twin = ('False' if suffix else
-                            f"H.select_result('{cloud}', {v}, c, m, st, pre_, label_i, {wti}, (s0, s1, s2)) is None")
+                            f"H.select_result('{cloud}', {v}, H.share(ck), m, st, pre_, label_i, {wti}, (s0, s1, s2)) is None")
                     stub = wti == 0 and v != 3      # variant 3 (known class excluded) keeps the REAL price computation
                     prargs = ''.join(f', pr{i}: int' for i in range(NPRICE)) if stub else ''
                     prices = '(' + ', '.join(f'pr{i}' for i in range(NPRICE)) + ')' if stub else 'None'
@@ -115,4 +115,11 @@ def source(quick, variants, H, select0=True):
                     names.append(('selectK', fn, dict(cloud=cloud, variant=v, wt_i=wti)))
         out.append(PRIVATE.format(CLOUD=cloud, NMT=len(H.machine_types(cloud)), SMAX=SMAX))
         names.append(('private', f'private_{cloud}', dict(cloud=cloud)))
-    return '\n'.join(out), names
+    text = '\n'.join(out)
+    # search-mode twins of every pool/select condition (prefix T_): same body with the tight mdiv model switched on
+    import re
+    extra = []
+    for m in re.finditer(r"\ndef ((?:pool|select)\w*)\((.*?)\) -> bool:\n(    \"\"\".*?\"\"\"\n)(    return [^\n]*\n)", text, re.S):
+        fn, args, doc, ret = m.groups()
+        extra.append(f"\ndef T_{fn}({args}) -> bool:\n{doc}    H.LIMITS.mdiv_tight = True\n{ret}")
+    return text + '\n' + '\n'.join(extra), names
